@@ -5,6 +5,7 @@ import (
 	"fmt"
 	"math/rand"
 	"net"
+	"net/http"
 	"strings"
 	"sync"
 	"sync/atomic"
@@ -128,10 +129,13 @@ func c19Transport(c *ctx) {
 			t0 := time.Now()
 			done := make(chan error, 1)
 			go func() {
-				conn, err := tr.Dial("tcp", bh)
-				if conn != nil {
-					conn.Close()
+				// a real request: net/http decides which of the transport's dial hooks it uses
+				req, _ := http.NewRequest("GET", "http://"+bh+"/", nil)
+				resp, err := tr.RoundTrip(req)
+				if resp != nil {
+					resp.Body.Close()
 				}
+				tr.CloseIdleConnections()
 				done <- err
 			}()
 			select {
@@ -182,25 +186,42 @@ func c19Timeouts(c *ctx) {
 			}
 			defer tlsUp.Close()
 			proxyAddr := fmt.Sprintf("127.0.0.1:%d", freePort())
-			rg, err := newRig(c, fmt.Sprintf("c19-%d", ci), []string{"-proxy.addr", proxyAddr, "-proxy.responseheadertimeout", cf.T.String(),
-				"-proxy.maxconn", fmt.Sprint(cf.MaxConn), "-proxy.idleconntimeout", cf.Idle.String(), "-proxy.dialtimeout", "2s", "-log.level", "WARN"})
+			bh, closeBH, haveBH := blackhole()
+			if haveBH {
+				defer closeBH()
+			} else {
+				bh = "127.0.0.1:1"
+			}
+			manual := strings.Join([]string{
+				fmt.Sprintf("route add dflt dflt.test/ http://%s/", plainUp.Addr()),
+				fmt.Sprintf("route add skip skip.test/ https://%s/ opts \"proto=https tlsskipverify=true\"", tlsUp.Addr()),
+				fmt.Sprintf("route add hostr hostr.test/ https://%s/ opts \"proto=https host=up.test tlsskipverify=true\"", tlsUp.Addr()),
+				fmt.Sprintf("route add hang hang.test/ http://%s/", bh),
+			}, "\n")
+			// the routes are in the Consul KV store before fabio starts: they are part of the first routing table, and no
+			// barrier (which would rebuild the table) is issued afterwards
+			rg, err := newRigWith(c, fmt.Sprintf("c19-%d", ci), []string{"-proxy.addr", proxyAddr, "-proxy.responseheadertimeout", cf.T.String(),
+				"-proxy.maxconn", fmt.Sprint(cf.MaxConn), "-proxy.idleconntimeout", cf.Idle.String(), "-proxy.dialtimeout", "700ms", "-log.level", "WARN"}, manual)
 			if err != nil {
 				c.R.Inconcl("cannot start fabio: %v", err)
 				return
 			}
 			defer rg.close()
-			rg.setManual(strings.Join([]string{
-				fmt.Sprintf("route add dflt dflt.test/ http://%s/", plainUp.Addr()),
-				fmt.Sprintf("route add skip skip.test/ https://%s/ opts \"proto=https tlsskipverify=true\"", tlsUp.Addr()),
-				fmt.Sprintf("route add hostr hostr.test/ https://%s/ opts \"proto=https host=up.test tlsskipverify=true\"", tlsUp.Addr()),
-			}, "\n"))
-			if err := rg.barrier(); err != nil {
-				c.R.Inconcl("barrier: %v", err)
-				return
-			}
 			if !fabioproc.WaitListening(proxyAddr, 20*time.Second) {
 				c.R.Inconcl("proxy listener did not come up")
 				return
+			}
+			if haveBH {
+				// dial timeout through the real binary: the upstream's accept queue is full
+				for k := 0; k < 2; k++ {
+					raw := "GET /hang HTTP/1.1\r\nHost: hang.test\r\nConnection: close\r\n\r\n"
+					resp := rawhttp.Do(rawhttp.Dial{Addr: proxyAddr, Timeout: 20 * time.Second}, []byte(raw), "GET")
+					c.R.Eval(1)
+					c.R.Nontrivial(fmt.Sprintf("hang-%d-%d", ci, k))
+					if resp.Err != nil || resp.Status < 500 || resp.Elapsed > 700*time.Millisecond+2*time.Second {
+						c.R.Violate("c19:dial-timeout-not-applied:binary", fmt.Sprintf("upstream whose connect hangs, -proxy.dialtimeout 700ms: status %d after %s (err %v)", resp.Status, resp.Elapsed.Round(time.Millisecond), resp.Err), nil)
+					}
+				}
 			}
 			r := c.rng(int64(1900 + ci))
 			var seq atomic.Int64
